@@ -826,26 +826,22 @@ class UnaryOp(Expr):
         if not self.arg.type.is_numeric:
             raise EvalError('Invalid operand for unary operator')
 
-        value = self.arg.eval()
+        value = self.arg.type.coerce(self.arg.eval())
         if self.op == Operator.NOT:
             value = int(round(value))
+            if not self.type.can_hold(value):
+                # the conversion to INTEGER/LONG overflows at run time
+                raise OverflowError
             value = ~value
         elif self.op == Operator.NEG:
             value = -value
+            if not self.type.can_hold(value):
+                # e.g. -(-32768%)
+                raise OverflowError
         elif self.op == Operator.PLUS:
             pass
         else:
             raise InternalError('Unknown unary operator')
-
-        if self.arg.type == Type.INTEGER:
-            max_positive_int = 2**15 - 1
-            max_negative_int = -2**15
-        else:
-            max_positive_int = 2**31 - 1
-            max_negative_int = -2**31
-
-        if value > max_positive_int or value < max_negative_int:
-            value = max_negative_int
 
         return value
 
